@@ -26,11 +26,11 @@ func runNorm(c normCase) tr.Ev {
 	big := false
 	for _, f := range c.In {
 		total += f
-		if int64(f)*int64(scale) >= 1<<31-1 {
+		if int64(f)*int64(scale) >= 1<<30 {
 			big = true
 		}
 	}
-	if int64(total) >= 1<<31-1 {
+	if int64(total)*int64(scale) >= 1<<30 {
 		big = true
 	}
 	ev := tr.Ev{"ev": "NORM", "in": c.In, "scale": scale, "total": total, "conv": c.Conv, "big": big, "err": "", "panic": false}
